@@ -40,7 +40,7 @@ fn credential(cx: &mut Cx, c: u64, suite: Suite, issuer: NodeId, holder: NodeId)
     let l = if cx.run_index % 4 == 0 && c == 0 { 1 + (cx.run_index / 4 % 6) as usize } else { 1 + cx.ch.choose("L", 12) as usize };
     let seed = cx.run_seed ^ (c << 32);
     let header = gen_octets(cx, "header", c);
-    let msgs: Vec<Bytes> = (0..l).map(|i| bytes_for(seed, b"u-m", i as u64, 4 + i % 9)).collect();
+    let msgs: Vec<Bytes> = (0..l).map(|i| if cx.ch.chance("empty_initial", 1, 8) { Vec::new() } else { bytes_for(seed, b"u-m", i as u64, 4 + i % 9) }).collect();
     let (h1, m1) = (header.clone(), msgs.clone());
     cx.log(format!("credential {c}: suite={} L={l}", suite.name()));
     cx.step(issuer, "issue", StepOpts::default(), move || { let (sk, pk) = api::keygen(suite, &bytes_for(seed, b"ikm", 0, 32), None, None)?; let sig = api::sign(suite, &sk, &pk, &h1, &Some(m1))?; Ok::<_, String>((sk, pk, sig)) }, move |cx, st| {
@@ -52,7 +52,7 @@ fn credential(cx: &mut Cx, c: u64, suite: Suite, issuer: NodeId, holder: NodeId)
         let mut cur = msgs.clone();
         for j in 0..k {
             let index = if l <= 6 { (j + cx.run_index as usize) % l } else { cx.ch.choose("index", l as u64) as usize };
-            let new = if cx.ch.chance("same_value", 1, 12) { cur[index].clone() } else { bytes_for(seed, b"u-new", j as u64, 3 + j % 7) };
+            let new = if cx.ch.chance("same_value", 1, 12) { cur[index].clone() } else if cx.ch.chance("empty_value", 1, 8) { Vec::new() } else { bytes_for(seed, b"u-new", j as u64, 3 + j % 7) };
             reqs.push(Req { index, old: cur[index].clone(), new: new.clone(), tag: format!("c{c}u{j}") });
             cur[index] = new;
         }
